@@ -347,3 +347,24 @@ Example C14_witness_trace_bad_fourth :
     ([[]; [(0, LazyExamples.at_ 1%Q); (1, LazyExamples.at_ 1%Q)];
       [(2, LazyExamples.at_ 2%Q); (3, LazyExamples.at_ 3%Q); (4, LazyExamples.at_ 3%Q)]], None).
 Proof. exact LazyExamples.ex_trace_bad_fourth. Qed.
+
+(* The readiness predicate made concrete (Model/TraceFile.v, property C13 part 5): [file_replay_with rnd tps n rows] is
+   WorkloadTrace(CSVWorkloadReader(rows), tps) driven by n calls of run_one_tick, i.e. [wt_replay] with the test
+   get_next_batch_tick() <= current_tick of call t computed by Model/Trace.v. It is an instance of the machine above, so
+   the three theorems above hold of it; kind 44 of the correspondence check drives the real WorkloadTrace against it *)
+From Eudoxia Require Import Model.TraceFile Proofs.TraceFileFacts.
+Close Scope Q_scope.
+Close Scope Z_scope.
+
+Theorem C14_trace_file_replay_is_lookahead_machine : forall (rnd : Q -> Q) tps n rows,
+  file_replay_with rnd tps n rows = wt_replay (file_readys rnd tps n) rows /\ length (file_readys rnd tps n) = n.
+Proof. exact TraceFileFacts.file_replay_is_wt_replay. Qed.
+Print Assumptions C14_trace_file_replay_is_lookahead_machine.
+
+Theorem C14_trace_file_lookahead_prefix : forall (rnd : Q -> Q) tps n rows ticks oe',
+  file_replay_with rnd tps n rows = (ticks, oe') ->
+  exists m, concat ticks = concat (firstn m (fst (lazy_batches rows))) /\
+            forall e, oe' = Some e ->
+              snd (lazy_batches rows) = Some e /\ m <= pred (length (fst (lazy_batches rows))).
+Proof. exact TraceFileFacts.file_lookahead_prefix. Qed.
+Print Assumptions C14_trace_file_lookahead_prefix.
